@@ -18,6 +18,8 @@ theorem C19_tree (e : GitEntry) (m : Meta) (h : gitEntryMeta e = .ok m) :
     (e.mode = .regular → m.kind = .file ∧ m.perms = 0o644) ∧
     (e.mode = .deprecated → m.kind = .file ∧ m.perms = 0o644) ∧
     (e.mode = .executable → m.kind = .file ∧ m.perms = 0o755) ∧
+    (e.mode = .oddRegular → m.kind = .file ∧ m.perms = 0o644) ∧
+    (e.mode = .oddExecutable → m.kind = .file ∧ m.perms = 0o755) ∧
     (e.mode = .symlink → m.kind = .symlink ∧ m.linkname = e.blob) ∧
     (e.mode = .dir → m.kind = .dir ∧ m.perms = 0o755) := by
   unfold gitEntryMeta at h
